@@ -8,7 +8,7 @@ REGRESS = os.path.join(V.VERIF, "checks", "regress")
 
 
 # which monitor predicates decide which property (every predicate has at least one owner)
-_ROOTS = {"RootMirrors", "LeafValue", "RootByHash", "LastProcessedBlock", "FaultFreeProcessFailed", "InfoLeaves", "RollupTree"}
+_ROOTS = {"RootMirrors", "LeafValue", "RootByHash", "LastProcessedBlock", "FaultFreeProcessFailed", "InfoLeaves", "InfoByBlock", "RollupTree"}
 OWNERS = {
     "C01": _ROOTS,
     "C11": _ROOTS,
